@@ -658,6 +658,19 @@ def _build_fams():
         _spec("int9", i9, dtype="i8", cont="df"), _spec("s9:f4:df", s9, dtype="f4", cont="df"),
     ]
     F["dtype1"] = [_with(x, a=x["a"][:, :1].copy()) for x in F["dtype2"]]
+    # ---- round 5: integer-typed batches whose range lies strictly INSIDE the range of the float batches they are pooled
+    # with (fractional extremes on both sides of zero): the pooled histogram range must come from the float reference even
+    # when the test batch (or the reference) is integer-typed — in "dtype2" every float batch lies inside the integers' range
+    F["dtype2b"] = [
+        _spec("int4b", [[1, 1], [2, 1], [3, 2], [1, 2]], dtype="i8"),
+        _spec("wide4:f8", [[-0.5, 0.25], [3.5, 2.75], [1.25, 1.5], [2.5, 0.75]]),
+        _spec("intneg4", [[-3, -2], [-1, -1], [-2, -3], [-1, -2]], dtype="i8", cont="df"),
+        _spec("neg4:f8", [[-3.625, -1.5], [-0.375, -0.25], [-1.5, -3.75], [-0.125, -1.125]]),
+        _spec("int9b", [[1, 2], [2, 1], [3, 1], [2, 2], [1, 1], [3, 2], [1, 2], [2, 1], [2, 2]], dtype="i8", cont="df"),
+        _spec("wide9:f8", [[-0.25, 0.125], [3.75, 2.5], [0.5, 1.5], [2.25, 0.875], [1.5, 2.875], [3.25, 0.25],
+                           [0.75, 1.25], [2.75, 2.25], [1.25, 0.625]]),
+    ]
+    F["dtype1b"] = [_with(x, a=x["a"][:, :1].copy()) for x in F["dtype2b"]]
     # ---- shapes: 3 features, a constant feature, duplicated rows, row-permuted reference, 2-row batches
     r9c = np.column_stack([lo9, np.ones(9)])
     r4c = np.column_stack([lo4, np.ones(4)])
@@ -1008,6 +1021,13 @@ def _round3(tier, seed):
         cfg = _fcfg("dtype1-%d" % i, "dtypes", "dtype1", _P(db, stat[0], stat[1], div), ref0, [0, 1, 2, 3, 4],
                     f32_guard=True)
         out.append(_fdfs(_ONE[i % 2], cfg, 4 + deep, "5^%d" % (4 + deep)))
+    for i, (db, ref0, stat, div) in enumerate([(3, 1, ("stdev", 0.5), "H"), (2, 3, ("tstat", 0.5), "KL"),
+                                               (1, 5, ("stdev", 0.5), "KL"), (3, 0, ("tstat", 0.5), "H")]):
+        cfg = _fcfg("dtype2b-%d" % i, "dtypes", "dtype2b", _P(db, stat[0], stat[1], div), ref0, [0, 1, 2, 3, 4, 5])
+        out.append(_fdfs("F-HDDDM2", cfg, 3 + deep, "6^%d" % (3 + deep)))
+    for i, (db, ref0, stat, div) in enumerate([(2, 1, ("stdev", 0.5), "KL"), (3, 3, ("tstat", 0.5), "H")]):
+        cfg = _fcfg("dtype1b-%d" % i, "dtypes", "dtype1b", _P(db, stat[0], stat[1], div), ref0, [0, 1, 2, 3, 4, 5])
+        out.append(_fdfs(_ONE[i % 2], cfg, 3 + deep, "6^%d" % (3 + deep)))
     # ---- shapes
     for i, (db, ref0, stat, div) in enumerate([(3, 5, ("stdev", 0.5), "H"), (2, 5, ("tstat", 0.5), "KL"),
                                                (1, 5, ("stdev", 2), "custom"), (3, 7, ("tstat", 0.5), "H"),
@@ -1278,6 +1298,10 @@ def _describe_families(tier):
                        "what": "DataFrames (integer labels that are not the positions, one with a non-default row index), "
                        "ndarrays, lists, 1-D arrays and flat lists mixed across one history; initial reference in each container",
                        "bound": "(4 updates + 2 set_reference, <=1)^%d x 3 configurations (2 features); 5^%d x 3 (1 feature)" % (4 + d, 4 + d)},
+        "dtypes-inside-range": {"menu": names("dtype2b"), "what": "round 5: int64 batches whose range lies strictly inside the "
+                                "range of the float64 batches they are pooled with (fractional extremes on both sides of zero, also all-negative): "
+                                "the pooled histogram range must not be truncated to the integer batch's dtype; 6^3 / 6^4 sequences, four 2-feature and "
+                                "two 1-feature configurations"},
         "dtypes": {"menu": names("dtype2"), "what": "int64 and float32 batches next to float64 ones (fractional values, values "
                    "2^-30 below a bin edge); steps where float32 binning is legitimately ambiguous are not judged (none occurs)",
                    "bound": "5^%d x 4 configurations (2 features) + 3 (1 feature)" % (4 + d)},
